@@ -507,9 +507,33 @@ def rule_yield_passthrough(ctx: Ctx, rule: str) -> None:
             for e in es:
                 if [_tag(a) for a in e[2]] != [f'{E}[0]', f'elem({E}[2])']:
                     bad_h.append(f'{h}({[_tag(a)[:40] for a in e[2]]})')
+    # abort discipline: each directory, each sub-directory check and each file is followed / preceded by the abort test
+    bad_a = []
+    for p in walk_rows(repo):
+        focus(p)
+        ws = p.calls_to('os.walk')
+        if len(ws) != 1:
+            continue
+        outer = [e for e in p.events if e[0] in ('call', 'yield', 'except', 'store') and isinstance(e[-1], tuple) and len(e[-1]) >= 1]
+        if not outer:
+            continue
+        first = outer[0]
+        if not (first[0] == 'call' and first[1] == f'{WM}:WcMatch.is_aborted' and len(first[-1]) == 1):
+            bad_a.append(f'a directory is entered with {first[1] if first[0] == "call" else first[0]} before the abort test')
+            continue
+        ab = [(i, e) for i, e in enumerate(p.events) if e[0] == 'call' and e[1] == f'{WM}:WcMatch.is_aborted']
+        decided = [k for k in p.decisions if k.startswith(f'{WM}:WcMatch.is_aborted()')]
+        if p.decisions.get(f'{WM}:WcMatch.is_aborted()') is True and len(outer) > 1:
+            bad_a.append('work continues in a directory although the walk was aborted before it')
+        for loop_tag in ('[1]', '[2]'):
+            inner = [e for e in p.events if e[0] in ('call', 'yield', 'except', 'store') and isinstance(e[-1], tuple) and len(e[-1]) == 2 and loop_tag in e[-1][1][-12:]]
+            if inner and not (inner[-1][0] == 'call' and inner[-1][1] == f'{WM}:WcMatch.is_aborted'):
+                bad_a.append(f'an iteration over {"directories" if loop_tag == "[1]" else "files"} does not end with the abort test')
     if n_file < 4:
         raise AnalysisError(f'_walk: only {n_file} rows enter the file loop')
     ctx.ob(rule, f'{WM}:WcMatch._walk/yield-values', not bad_y, site, 'yield on_match(base, name) | non-None result of on_error / on_skip(base, name)',
            'as expected' if not bad_y else sorted(set(bad_y))[0], witness='values returned by the hooks must be passed through unchanged')
+    ctx.ob(rule, f'{WM}:WcMatch._walk/abort-tests', not bad_a, site, 'is_aborted() is the first thing asked in every directory and the last in every directory / file iteration',
+           'as expected' if not bad_a else sorted(set(bad_a))[0], witness='kill() before or during a walk stops it at the next directory / file boundary without visiting anything further')
     ctx.ob(rule, f'{WM}:WcMatch._walk/one-hook-per-file', not bad_h, site, 'per file: on_match iff valid, else _skipped += 1 and on_skip; on_error exactly when the check raised',
            f'{n_file} rows agree' if not bad_h else sorted(set(bad_h))[0], witness='get_skipped() + len(matches) == number of files seen')
